@@ -107,4 +107,13 @@ MUTANTS = [
     N("C04", "parse_event_list through chained .get", TP,
       "        if events[0].eventid not in self.trace_codes:\n            return None\n        trace_name = self.trace_codes[events[0].eventid]\n        if trace_name not in self.handlers:\n            return None\n        return self.handlers[trace_name](self, events)",
       "        handler = self.handlers.get(self.trace_codes.get(events[0].eventid))\n        return None if handler is None else handler(self, events)"),
+    F("C04", "a decoder drops the open windows of a terminated thread", "trace_handlers/trace.py",
+      "    event.name = parser.tids_names.get(tid, '')\n    return event",
+      "    event.name = parser.tids_names.get(tid, '')\n    parser.on_going_events.pop(tid, None)\n    return event", "K10"),
+    N("C04", "actions in EAFP style", TP,
+      "        if event.tid not in state or event.eventid not in state[event.tid]:\n            # Event end without start.\n            return\n\n        for eventid in state[event.tid]:\n            state[event.tid][eventid].append(event)\n\n        events = state[event.tid].pop(event.eventid)",
+      "        try:\n            windows = state[event.tid]\n            events = windows[event.eventid]\n        except KeyError:\n            return None\n        for window in windows.values():\n            window.append(event)\n        del windows[event.eventid]"),
+    F("C04", "EAFP END that catches the wrong lookup only", TP,
+      "        if event.tid not in state or event.eventid not in state[event.tid]:\n            # Event end without start.\n            return\n\n        for eventid in state[event.tid]:\n            state[event.tid][eventid].append(event)\n\n        events = state[event.tid].pop(event.eventid)",
+      "        try:\n            windows = state[event.tid]\n        except KeyError:\n            return None\n        for window in windows.values():\n            window.append(event)\n        events = windows.pop(event.eventid, [])", "K4"),
 ]
